@@ -137,6 +137,20 @@ def check_threshold(case):
             for a, b in zip(rows, rows[1:]):
                 if p[b] < p[a] - 1e-12:
                     raise PropertyViolation(f"flip=False but P(1) decreases with the score in group {g}: score {Xq[a, 0]} -> {p[a]}, score {Xq[b, 0]} -> {p[b]}")
+    # a query object that is modified in place between two calls must be read again: the answer is a function
+    # of the current scores, not of an earlier call with the same array object
+    Xm = Xq.copy()
+    to._pmf_predict(Xm, sensitive_features=gq)
+    to.predict(Xm, sensitive_features=gq, random_state=0)
+    Xm[:] = Xm[::-1] + (0.5 if case.get("shift_scores") else 0.0)
+    p_again = np.asarray(to._pmf_predict(Xm, sensitive_features=gq))[:, 1]
+    p_fresh = np.asarray(to._pmf_predict(Xm.copy(), sensitive_features=gq.copy()))[:, 1]
+    if np.abs(p_again - p_fresh).max() > 0:
+        raise PropertyViolation("querying the same array object again after modifying it in place returns probabilities of the earlier contents")
+    y_again = np.asarray(to.predict(Xm, sensitive_features=gq, random_state=3))
+    y_fresh = np.asarray(to.predict(Xm.copy(), sensitive_features=gq.copy(), random_state=3))
+    if not np.array_equal(y_again, y_fresh):
+        raise PropertyViolation("predict on an array object modified in place differs from predict on a fresh copy of the same values")
     tiled = {}
 
     def predict(tiles, seed):
@@ -204,6 +218,11 @@ def check_eg(case):
     if np.abs(mix - p).max() > 1e-9:
         i = int(np.argmax(np.abs(mix - p)))
         raise PropertyViolation(f"P(1) of row {i} is {p[i]} but the weights_-weighted mixture of the stored predictors gives {mix[i]} (weights {w.to_dict()})")
+    Xm = Xq.copy()
+    eg._pmf_predict(Xm)
+    Xm[:] = Xm[::-1]
+    if np.abs(np.asarray(eg._pmf_predict(Xm)) - np.asarray(eg._pmf_predict(Xm.copy()))).max() > 0:
+        raise PropertyViolation("querying the same array object again after modifying it in place returns probabilities of the earlier contents")
     tiled = {}
 
     def predict(tiles, seed):
@@ -365,7 +384,7 @@ def _to_case(draw):
     return {"g": g, "y": y, "scores": scores, "constraint": constraint, "objective": objective,
             "flip": draw(st.booleans()), "grid_size": draw(st.sampled_from([1, 2, 3, 7, 10, 50, 1000])),
             "query": query, "subset": draw(st.lists(st.integers(0, 40), min_size=1, max_size=8)),
-            "seeds": draw(_seeds)}
+            "shift_scores": draw(st.booleans()), "seeds": draw(_seeds)}
 
 
 @st.composite
